@@ -27,6 +27,7 @@ import (
 	"testing/synctest"
 	"time"
 
+	"github.com/pion/stun/v3"
 	turn "github.com/pion/turn/v5"
 	"github.com/pion/turn/v5/verif/rep"
 	"github.com/pion/turn/v5/verif/vtx"
@@ -152,8 +153,22 @@ func handler(kind, secret string) turn.AuthHandler {
 
 var srcAddr = &net.UDPAddr{IP: net.IPv4(10, 0, 0, 2).To4(), Port: 4000}
 
+// methods: the verdict of the time-windowed handlers does not depend on the request method.
+var methods = []stun.Method{stun.MethodAllocate, stun.MethodRefresh, stun.MethodCreatePermission, stun.MethodChannelBind,
+	stun.MethodConnect, stun.MethodConnectionBind, stun.MethodBinding}
+
+// call asks the handler with Method unset and with every request method; when a method gets another answer
+// than the unset one, that answer is returned (so that whichever oracle it offends reports it).
 func call(h turn.AuthHandler, username, realm string) (uid string, key []byte, ok bool) {
-	return h(&turn.RequestAttributes{Username: username, Realm: realm, SrcAddr: srcAddr})
+	uid, key, ok = h(&turn.RequestAttributes{Username: username, Realm: realm, SrcAddr: srcAddr})
+	for _, m := range methods {
+		u2, k2, ok2 := h(&turn.RequestAttributes{Username: username, Realm: realm, SrcAddr: srcAddr, Method: m})
+		if ok2 != ok || u2 != uid || !bytes.Equal(k2, key) {
+			return u2, k2, ok2
+		}
+	}
+
+	return uid, key, ok
 }
 
 // ---------------------------------------------------------------- bubbles
